@@ -538,6 +538,16 @@ def r8(ctx, r):
         exits_without = search(sd, ("entry",), "exit", stop=lambda x: x in stores, eh=False)
         r.expect(exits_without is None, sd, stores[0], "registration skipped on a path", "setSessionData can return without storing (%s)" % (witness_str(sd, exits_without) if exits_without else ""),
                  okdesc="every path of setSessionData stores")
+    # the session's read-mode entry dies with the session on EVERY announced close: a mode left behind (Sync) routes a later
+    # setReadMode(Async) into the flush path, which delivers the tombstone's bytes through the data callback after the close
+    rm = common.member_calls_on(oc, IMPL + "::readModes", ("erase",))
+    r.instance()
+    if not rm:
+        r.fail(oc, None, "read mode kept after close", "the close handler no longer erases readModes[sid]")
+    else:
+        w = search(oc, gs[0], "exit", stop=lambda x: x in rm, eh=False)
+        r.expect(w is None, oc, rm[0], "read mode kept after close", "after the global close callback the handler can return without erasing readModes[sid] (%s): the session stays in its old mode after its close, and a later "
+                 "setReadMode(sid, Async) takes the Sync→Async flush path and hands the undrained bytes to the data callback — data after close" % witness_str(oc, w), okdesc="readModes[sid] erased on every announced close")
     # observers iterate the copy front to back
     r.instance()
     begins = [e for e in oc.stmts() if e.node.get("k") == "mcall" and last(e.node.get("callee", "")) in ("rbegin", "crbegin") and "sessionObservers" in show(e.node)]
